@@ -27,7 +27,8 @@ Record st := mkSt {
   s_running : bool
 }.
 
-Inductive event := Adv (d : N) | Pong | PollDgram | AdvPong (d : N).   (* AdvPong: the clock advances and a Pong arrives before the task runs *)
+Inductive event := Adv (d : N) | Pong | PollDgram | AdvPong (d : N)    (* AdvPong: the clock advances and a Pong arrives before the task runs *)
+  | PingIn.            (* the peer sends a Ping of its own: no evidence that OUR pings are answered *)
 
 (* one pass of the ping loop at time [now]; returns (state, pings sent, timed out) *)
 Definition tick (s : st) : st * N * bool :=
@@ -67,6 +68,9 @@ Definition step (s : st) (e : event) : st * list N :=
       let '(s', p, to) := tick s in
       (s', [p; if to then 1 else 0; if to then 106 else 0])
   | PollDgram => (s, [if s_running s then 1 else 2])
+  | PingIn =>
+      let '(s', p, to) := tick s in
+      (s', [p; if to then 1 else 0; if to then 106 else 0])
   | AdvPong d =>
       (* the receive arm of the task runs before the ping arm: the Pong is seen first *)
       let s := mkSt (s_cfg s) (s_now s + d) (if s_running s then s_now s + d else s_last_pong s) (s_next s) (s_running s) in
@@ -89,6 +93,7 @@ Fixpoint parse_events (fuel : nat) (l : list N) : option (list event) :=
       | 0 :: d :: r => option_map (cons (Adv d)) (parse_events f r)
       | 1 :: r => option_map (cons Pong) (parse_events f r)
       | 3 :: d :: r => option_map (cons (AdvPong d)) (parse_events f r)
+      | 4 :: r => option_map (cons PingIn) (parse_events f r)
       | _ :: r => option_map (cons PollDgram) (parse_events f r)
       end
   end.
